@@ -130,11 +130,12 @@ func c02Exec(c *lib.Ctx, cs c02Case) (obs string, pts []mapPoint, pv any) {
 			obs = strings.Join(db.GetSuggestions(q, cs.Opts.Limit), "\x00")
 			return
 		}
-		// identify results by their text, not their position: a loader that orders the
-		// merged commands differently must show up as a different answer
+		// identify results by their text AND their position: a loader that orders the merged commands
+		// differently must show up as a different answer, and so must a different choice among entries
+		// whose texts are identical
 		var sb strings.Builder
 		for _, r := range db.SearchUniversal(q, cs.Opts) {
-			fmt.Fprintf(&sb, "%s:%016x;", r.Command.Command, math.Float64bits(r.Score))
+			fmt.Fprintf(&sb, "%s#%d:%016x;", r.Command.Command, uIndexOf(db, r.Command), math.Float64bits(r.Score))
 		}
 		obs = sb.String()
 	})
@@ -180,7 +181,9 @@ func c02DBs(thorough bool) []dbSpec {
 var c02Queries = []string{"git", "files", "compress files", "git commit", "list files", "compress", "record changes repository", "zip archive files", "comprss", "fils", "gt", "show folder", "tar", "deploy", "release app",
 	// long queries: more distinct vocabulary words than a matching command has (sparse dot products)
 	"git commit msg record changes repository save vcs push files compress", "compress files zip archive folder directory tar list find name count lines",
-	"rotate and compress the nightly nginx backup logs fast then archive old files", "sync remote backup host directories nightly schedule jobs logs cleanup"}
+	"rotate and compress the nightly nginx backup logs fast then archive old files", "sync remote backup host directories nightly schedule jobs logs cleanup",
+	// several misspelt words, in an order in which no entry has them (typo fallback word by word)
+	"fils comprss", "sttus gt comit", "flies gti", "remot psh", "fils psh gt", "comprss fils", "archve zp"}
 
 func c02Options() []Opts {
 	var out []Opts
@@ -191,6 +194,8 @@ func c02Options() []Opts {
 			}
 		}
 	}
+	// context boosts whose keys differ only in letter case (package.json scripts "build" and "Build" give that)
+	out = append(out, Opts{Limit: 2, UseNLP: true, AllPlatforms: true, ContextBoosts: map[string]float64{"files": 1.5, "Files": 1.3, "FILES": 2, "git": 1.2, "Git": 3, "compress": 1.1, "Compress": 2.5}})
 	return out
 }
 
@@ -271,7 +276,7 @@ func c02Run(c *lib.Ctx) {
 					// a tie exists iff two items carry the same score bits
 					seen := map[string]bool{}
 					for _, it := range strings.Split(canon, ";") {
-						if i := strings.Index(it, ":"); i >= 0 {
+						if i := strings.LastIndex(it, ":"); i >= 0 {
 							if seen[it[i:]] {
 								c.Count("cases_with_score_tie", 1)
 								break
@@ -354,7 +359,7 @@ func c02Run(c *lib.Ctx) {
 func init() {
 	lib.Register(&lib.Check{
 		ID: "C02", Level: "model_checking",
-		Rule:      "map-iteration-order exploration (the runtime's randomised order as scheduler): for every case = (database: 12 identical entries, all sequences of <=2 of a 10-entry tie-rich pool, 12 (quick) / 228 (thorough) longer sequences, the 40-entry database, a 14-entry database of short overlapping entries, 3 main+notebook pairs merged by LoadDatabaseWithPersonal with equal-scoring notebook entries) x 19 queries (lexical, 11-13-word, NLP-expanded, typo-fallback) x {NLP, fuzzy} x limit {1,2,50} + GetSuggestions, the execution 'load the database through the real loader, then search' is run under the canonical order and under every schedule deviating at <=1 dynamic range point (thorough: <=2 for the limit-2 cases of databases of <=3 entries whose execution has <=32 range points), a deviating point taking every permutation (<=4 keys) or reverse / rotate / every adjacent transposition (<=12 keys) / 6 spread transpositions (more keys); the ordered (entry, score-bits) list must be identical. states = cases (canonical executions); transitions = deviating executions; every execution runs the real code (traces validated = evaluations). non-trivial = cases with a non-empty answer. Process form: the instrumented binary (`wtf --format json -v`) is run under four forced whole-process map orders (sorted, reverse, rotate, swap) on 30 (database, query) cases and on the shipped 6,619-entry database for 40 queries, and the plain binary five times per case; outputs must be byte-identical after dropping the timing line. Schedule form: goroutines started by the search itself (rewritten go statements) run under the controlled scheduler; 6 (database, query) cases on a 320-entry look-alike database and the shipped one, every interleaving with <=2 preemptions must give the canonical answer (a single execution each while the search starts no goroutine)",
+		Rule:      "map-iteration-order exploration (the runtime's randomised order as scheduler): for every case = (database: 12 identical entries, all sequences of <=2 of a 10-entry tie-rich pool, 12 (quick) / 228 (thorough) longer sequences, the 40-entry database, a 14-entry database of short overlapping entries, 3 main+notebook pairs merged by LoadDatabaseWithPersonal with equal-scoring notebook entries) x 26 queries (lexical, 11-13-word, NLP-expanded, typo-fallback with one and with several misspelt words) x ({NLP, fuzzy} x limit {1,2,50} + one option set with context boosts whose keys differ only in letter case) + GetSuggestions, the execution 'load the database through the real loader, then search' is run under the canonical order and under every schedule deviating at <=1 dynamic range point (thorough: <=2 for the limit-2 cases of databases of <=3 entries whose execution has <=32 range points), a deviating point taking every permutation (<=4 keys) or reverse / rotate / every adjacent transposition (<=12 keys) / 6 spread transpositions (more keys); the ordered (entry, score-bits) list must be identical. states = cases (canonical executions); transitions = deviating executions; every execution runs the real code (traces validated = evaluations). non-trivial = cases with a non-empty answer. Process form: the instrumented binary (`wtf --format json -v`) is run under four forced whole-process map orders (sorted, reverse, rotate, swap) on 30 (database, query) cases and on the shipped 6,619-entry database for 40 queries, and the plain binary five times per case; outputs must be byte-identical after dropping the timing line. Schedule form: goroutines started by the search itself (rewritten go statements) run under the controlled scheduler; 6 (database, query) cases on a 320-entry look-alike database and the shipped one, every interleaving with <=2 preemptions must give the canonical answer (a single execution each while the search starts no goroutine)",
 		Assume:    []string{"all map ranges of the repository are routed through vmap by the build overlay (sites listed under instrumentation)", "sort.Slice is deterministic for a given input order", "maps with more than 4 keys get the menu, not all n! orders"},
 		QuickSecs: 360, ThorSecs: 3000, Graph: true,
 		Run: c02Run,
